@@ -44,10 +44,13 @@ pub fn render<'a>(v: &FieldType<'a>, kids: &mut Vec<(u64, Box<dyn SomeTable<'a> 
         FieldType::StringOffset(r) => off_val(&r.offset).to_string(),
         FieldType::ArrayOffset(r) => off_val(&r.offset).to_string(),
         FieldType::Record(r) => {
+            // a record is the flat list of its scalars (the Lean model's elements are flat): arrays and records nested in
+            // a record (computed-size records: BaseRecord, Class1Record, ValueRecord inside PairValueRecord …) are
+            // flattened in order
             let mut parts = vec![];
             for i in 0..MAX_FIELDS {
                 if let Some(f) = r.get_field(i) {
-                    parts.push(render(&f.value, kids, depth + 1));
+                    flat(&f.value, &mut parts);
                 }
             }
             format!("({})", parts.join("."))
@@ -67,19 +70,62 @@ pub fn render<'a>(v: &FieldType<'a>, kids: &mut Vec<(u64, Box<dyn SomeTable<'a> 
     }
 }
 
-/// collect resolved child tables (offset, table) reachable directly from `v` (through records and
-/// arrays, not through other tables)
-fn children<'a>(v: FieldType<'a>, out: &mut Vec<(u64, Box<dyn SomeTable<'a> + 'a>)>) {
+/// the scalars of a value nested inside a record, in order
+fn flat<'a>(v: &FieldType<'a>, out: &mut Vec<String>) {
     match v {
-        FieldType::ResolvedOffset(r) => {
-            if let Ok(t) = r.target {
-                out.push((off_val(&r.offset), t));
-            }
-        }
         FieldType::Record(r) => {
             for i in 0..MAX_FIELDS {
                 if let Some(f) = r.get_field(i) {
-                    children(f.value, out);
+                    flat(&f.value, out);
+                }
+            }
+        }
+        FieldType::Array(a) => {
+            for i in 0..a.len() {
+                match a.get(i) {
+                    Some(x) => flat(&x, out),
+                    None => out.push("?".into()),
+                }
+            }
+        }
+        other => {
+            let mut dummy = vec![];
+            out.push(render(other, &mut dummy, 1));
+        }
+    }
+}
+
+/// a resolved child table: its raw offset, and — when the offset sits in a record of an array — that record's type and
+/// scalar fields (the generated record getter may pass some of them as arguments: `FeatureRecord::feature`)
+pub struct Kid<'a> {
+    pub off: u64,
+    pub table: Box<dyn SomeTable<'a> + 'a>,
+    pub rec: Option<(String, String, Vec<(String, String)>)>,
+}
+
+/// collect resolved child tables reachable directly from `v` (through records and arrays, not through other tables)
+fn children<'a>(v: FieldType<'a>, rec: &Option<(String, String, Vec<(String, String)>)>, out: &mut Vec<Kid<'a>>) {
+    match v {
+        FieldType::ResolvedOffset(r) => {
+            if let Ok(t) = r.target {
+                out.push(Kid { off: off_val(&r.offset), table: t, rec: rec.clone() });
+            }
+        }
+        FieldType::Record(r) => {
+            let rty = r.type_name().to_string();
+            let mut vals = vec![];
+            let mut dummy = vec![];
+            for i in 0..MAX_FIELDS {
+                if let Some(f) = r.get_field(i) {
+                    if !matches!(f.value, FieldType::Record(_) | FieldType::Array(_) | FieldType::Unknown) {
+                        vals.push((f.name.to_string(), render(&f.value, &mut dummy, 1)));
+                    }
+                }
+            }
+            for i in 0..MAX_FIELDS {
+                if let Some(f) = r.get_field(i) {
+                    let ctx = Some((rty.clone(), f.name.to_string(), vals.clone()));
+                    children(f.value, &ctx, out);
                 }
             }
         }
@@ -87,7 +133,7 @@ fn children<'a>(v: FieldType<'a>, out: &mut Vec<(u64, Box<dyn SomeTable<'a> + 'a
             let n = a.len().min(4096);
             for i in 0..n {
                 if let Some(x) = a.get(i) {
-                    children(x, out);
+                    children(x, rec, out);
                 }
             }
         }
@@ -95,33 +141,169 @@ fn children<'a>(v: FieldType<'a>, out: &mut Vec<(u64, Box<dyn SomeTable<'a> + 'a
     }
 }
 
+/// the scalars of a GPOS value record as the real reader (`ValueRecord::read`) holds them: one per flag of the format it
+/// was read with, in order — the traversal hides null device offsets, so it cannot be used for these
+fn vr_flat(v: &read_fonts::tables::gpos::ValueRecord, out: &mut Vec<String>) {
+    use read_fonts::tables::gpos::ValueFormat as F;
+    let f = v.format;
+    let sc = |x: Option<i16>| (x.unwrap_or(0) as u16).to_string();
+    if f.contains(F::X_PLACEMENT) {
+        out.push(sc(v.x_placement()));
+    }
+    if f.contains(F::Y_PLACEMENT) {
+        out.push(sc(v.y_placement()));
+    }
+    if f.contains(F::X_ADVANCE) {
+        out.push(sc(v.x_advance()));
+    }
+    if f.contains(F::Y_ADVANCE) {
+        out.push(sc(v.y_advance()));
+    }
+    if f.contains(F::X_PLACEMENT_DEVICE) {
+        out.push(v.x_placement_device.get().offset().to_u32().to_string());
+    }
+    if f.contains(F::Y_PLACEMENT_DEVICE) {
+        out.push(v.y_placement_device.get().offset().to_u32().to_string());
+    }
+    if f.contains(F::X_ADVANCE_DEVICE) {
+        out.push(v.x_advance_device.get().offset().to_u32().to_string());
+    }
+    if f.contains(F::Y_ADVANCE_DEVICE) {
+        out.push(v.y_advance_device.get().offset().to_u32().to_string());
+    }
+}
+
+fn recs(items: Vec<Vec<String>>) -> String {
+    // zero-size records are not rendered (their number cannot be recovered from the data: known finding)
+    format!("[{}]", items.iter().filter(|r| !r.is_empty()).map(|r| format!("({})", r.join("."))).collect::<Vec<_>>().join(","))
+}
+
+/// Fields whose traversal rendering is lossy (value records: null device offsets hidden; meta data offsets: `Unknown`),
+/// re-rendered from the typed getters of the real reader: `(field name, rendering)`.
+fn typed_fields(ty: &str, base: &[u8], args: &[(String, String)]) -> Vec<(String, String)> {
+    use read_fonts::tables::gpos as g;
+    use read_fonts::{FontData, FontRead, FontReadWithArgs};
+    let d = FontData::new(base);
+    let mut out = vec![];
+    match ty {
+        "SinglePosFormat1" => {
+            if let Ok(t) = g::SinglePosFormat1::read(d) {
+                let mut r = vec![];
+                vr_flat(&t.value_record(), &mut r);
+                out.push(("value_record".to_string(), format!("({})", r.join("."))));
+            }
+        }
+        "SinglePosFormat2" => {
+            if let Ok(t) = g::SinglePosFormat2::read(d) {
+                let items = t.value_records().iter().flatten().map(|v| {
+                    let mut r = vec![];
+                    vr_flat(&v, &mut r);
+                    r
+                }).collect();
+                out.push(("value_records".to_string(), recs(items)));
+            }
+        }
+        "PairSet" => {
+            let a: Vec<u16> = args.iter().filter_map(|(_, v)| v.parse().ok()).collect();
+            if a.len() == 2 {
+                let fa = (g::ValueFormat::from_bits_truncate(a[0]), g::ValueFormat::from_bits_truncate(a[1]));
+                if let Ok(t) = g::PairSet::read_with_args(d, &fa) {
+                    let items = t.pair_value_records().iter().flatten().map(|p| {
+                        let mut r = vec![p.second_glyph().to_u16().to_string()];
+                        vr_flat(p.value_record1(), &mut r);
+                        vr_flat(p.value_record2(), &mut r);
+                        r
+                    }).collect();
+                    out.push(("pair_value_records".to_string(), recs(items)));
+                }
+            }
+        }
+        "PairPosFormat2" => {
+            if let Ok(t) = g::PairPosFormat2::read(d) {
+                let items = t.class1_records().iter().flatten().map(|c1| {
+                    let mut r = vec![];
+                    for c2 in c1.class2_records().iter().flatten() {
+                        vr_flat(c2.value_record1(), &mut r);
+                        vr_flat(c2.value_record2(), &mut r);
+                    }
+                    r
+                }).collect();
+                out.push(("class1_records".to_string(), recs(items)));
+            }
+        }
+        "Meta" => {
+            if let Ok(t) = read_fonts::tables::meta::Meta::read(d) {
+                let items = t.data_maps().iter().map(|m| {
+                    vec![u32::from_be_bytes(m.tag().to_be_bytes()).to_string(), m.data_offset().to_u32().to_string(), m.data_length().to_string()]
+                }).collect();
+                out.push(("data_maps".to_string(), recs(items)));
+            }
+        }
+        _ => {}
+    }
+    out
+}
+
 pub fn walk_table<'a>(s: &mut Session, cx: &mut Ctx, t: &(dyn SomeTable<'a> + 'a), base: &[u8], depth: usize) {
+    walk_table_args(s, cx, t, base, depth, &[])
+}
+
+/// `args`: the external arguments the table was read with (name, raw value), in `ReadArgs` order
+pub fn walk_table_args<'a>(s: &mut Session, cx: &mut Ctx, t: &(dyn SomeTable<'a> + 'a), base: &[u8], depth: usize, args: &[(String, String)]) {
     if depth > 24 {
         return;
     }
     let ty = t.type_name().to_string();
+    // (a format enum passes its arguments to every variant; a variant that takes none ignores them)
+    let args: &[(String, String)] = if cx.covered.contains(&ty) && !cx.covered_args.contains_key(&ty) { &[] } else { args };
     let mut fields = vec![];
-    let mut kids: Vec<(u64, Box<dyn SomeTable<'a> + 'a>)> = vec![];
+    let mut vals: Vec<(String, String)> = args.to_vec();
+    let mut kids: Vec<(String, Kid<'a>)> = vec![];
     let mut dummy = vec![];
     for i in 0..MAX_FIELDS {
         if let Some(f) = t.get_field(i) {
             // fields the traversal cannot render (16-byte CompatibilityId …) are hidden on both sides
             if !matches!(f.value, FieldType::Unknown) {
-                fields.push(format!("{}={}", f.name, render(&f.value, &mut dummy, 0)));
+                let r = render(&f.value, &mut dummy, 0);
+                vals.push((f.name.to_string(), r.clone()));
+                fields.push(format!("{}={}", f.name, r));
             }
-            children(f.value, &mut kids);
+            let mut k = vec![];
+            children(f.value, &None, &mut k);
+            for kid in k {
+                kids.push((f.name.to_string(), kid));
+            }
+        }
+    }
+    for (fname, r) in typed_fields(&ty, base, args) {
+        for f in fields.iter_mut() {
+            if f.starts_with(&format!("{fname}=")) {
+                *f = format!("{fname}={r}");
+            }
         }
     }
     if cx.covered.contains(&ty) {
+        let want = cx.covered_args.get(&ty).map(|a| a.len()).unwrap_or(0);
         let n = cx.per_type.entry(ty.clone()).or_insert(0);
         let limit = if depth == 0 { 24000 } else { 3000 };
-        if *n < cx.per_type_cap && base.len() <= limit {
+        if want != args.len() {
+            s.count(&format!("rt-skipped(arguments-unknown):{ty}"));
+        } else if *n < cx.per_type_cap && base.len() <= limit {
             let mut h = std::collections::hash_map::DefaultHasher::new();
             ty.hash(&mut h);
             base.hash(&mut h);
+            args.hash(&mut h);
             if cx.seen.insert(h.finish()) {
                 *n += 1;
-                s.case("rt", format!("rt {} {}", ty, hex(base)), format!("ok {} | 1", join(&fields)));
+                let mut req = format!("rt {} {}", ty, hex(base));
+                for (_, v) in args {
+                    req.push(' ');
+                    req.push_str(v);
+                }
+                if want > 0 {
+                    s.count(&format!("rt-with-arguments:{ty}"));
+                }
+                s.case("rt", req, format!("ok {} | 1", join(&fields)));
             }
         } else {
             s.count("rt-skipped(cap-or-size)");
@@ -129,12 +311,29 @@ pub fn walk_table<'a>(s: &mut Session, cx: &mut Ctx, t: &(dyn SomeTable<'a> + 'a
     } else {
         s.count(&format!("rt-uncovered:{ty}"));
     }
-    for (off, k) in kids {
-        let off = off as usize;
+    for (fname, kid) in kids {
+        let off = kid.off as usize;
         if off == 0 || off > base.len() {
             continue;
         }
-        walk_table(s, cx, &k, &base[off..], depth + 1);
+        // arguments the generated getter passes to the child (`let args = (self.a(), self.b())`): fields of this table
+        // or its own arguments — or, for an offset inside a record, fields of that record — by name
+        let (owner, field, scope) = match &kid.rec {
+            Some((rty, rf, rvals)) if cx.child_args.get(rty).map(|m| m.contains_key(rf)).unwrap_or(false) => (rty.clone(), rf.clone(), rvals.clone()),
+            _ => (ty.clone(), fname.clone(), vals.clone()),
+        };
+        let mut kargs: Vec<(String, String)> = vec![];
+        if let Some(names) = cx.child_args.get(&owner).and_then(|m| m.get(&field)) {
+            for n in names {
+                if let Some((_, v)) = scope.iter().find(|(k, v)| k == n && !v.is_empty() && v.bytes().all(|c| c.is_ascii_digit())) {
+                    kargs.push((n.clone(), v.clone()));
+                }
+            }
+            if kargs.len() != names.len() {
+                kargs.clear();
+            }
+        }
+        walk_table_args(s, cx, &kid.table, &base[off..], depth + 1, &kargs);
     }
 }
 
